@@ -134,6 +134,9 @@ def run(outdir):
         if any(re.search(r'\bCheckWithMsg\(|\bCheck\(', l) for l in removed) or re.search(r'func CheckWithMsg|func Check\(', hunk):
             open(res, 'a').write(f"{mid}\tSKIPPED-IO-ERROR-PATH\t\n")
             continue
+        if any(re.search(r'(Failf?|panic)\(.*(Could not|No such|already exists)', l) for l in removed):
+            open(res, 'a').write(f"{mid}\tSKIPPED-DEFENSIVE-ERROR-PATH\t\n")
+            continue
         if re.search(r'PlotGraph|DotGraph|PlotConf', hunk):
             open(res, 'a').write(f"{mid}\tSKIPPED-PLOTTING\t\n")
             continue
